@@ -74,6 +74,8 @@ class C10Mixin(object):
         another entry point together with table=dst (or without a table).  Afterwards the caller's
         formula must still contain only atoms of src."""
         pt = self.pt
+        if op.startswith("own_"):
+            return self._formula_owned(src, s, op, dst)
         f = pt.formula(s, table=self.table(src))
         before = self._membership(src, f)
         kw = {} if dst is None else {"table": self.table(dst)}
@@ -98,6 +100,39 @@ class C10Mixin(object):
             raised = type(e).__name__
         after = self._membership(src, f)
         return {"before": before, "after": after, "raised": raised}
+
+    def _formula_owned(self, src, s, op, dst):
+        """The caller owns the Formula it was handed: it edits that object in place (+=, density,
+        name, change_table).  What the same string parses to afterwards -- with table=dst or
+        without a table -- must be what it parsed to before, made of dst's atoms only."""
+        pt = self.pt
+        kw = {} if dst is None else {"table": self.table(dst)}
+        dname = dst or "public"
+
+        def look():
+            g = pt.formula(s, **kw)
+            out = self._membership(dname, g)
+            out.update({"str": str(g), "density": canon(g.density), "name": canon(getattr(g, "name", None)),
+                        "mass": canon(g.mass) if out["n"] else None})
+            return out
+        before = look()
+        f = pt.formula(s, table=self.table(src))
+        try:
+            if op == "own_iadd":
+                f += 2 * pt.formula("D2O", table=self.table(src))
+            elif op == "own_density":
+                f.density = 7.25
+            elif op == "own_name":
+                f.name = "mine"
+            elif op == "own_change_table":
+                others = [n for n in sorted(self.tables) if self.tables[n] is not self.table(src)]
+                f.change_table(self.tables[others[0]] if others else self.table(src))
+            else:
+                raise ValueError(op)
+            raised = None
+        except Exception as e:  # noqa: BLE001
+            raised = type(e).__name__
+        return {"before": before, "after": look(), "raised": raised}
 
     def ev_mix(self, tbl, which, parts):
         t = self.table(tbl)
